@@ -7,7 +7,7 @@ from ..oracles.docmodel import scan, as_items, split_lines
 MANIFEST = dict(
     engines="A",
     technique="symbolic execution (CrossHair+z3) of the format-preserving parser's dict interface (__setitem__/__delitem__, set_field_to_simple_value, set_field_from_raw_string, set/remove_kvpair_element) over a catalogue of document layouts: the operation, paragraph, target key (incl. case variants and fresh keys) are symbolic integers and the new value is a symbolic string; the result is compared with a text-splice model computed by an independent line scanner",
-    text="Bounded model checking: for 12 document layouts (comments above fields and inside values, multi-line values, tabs, trailing blanks, 1-2 paragraphs, with/without final newline), every set / add / delete on every paragraph and key (existing, case variant, fresh) with single-line values of up to 2-3 symbolic characters or two-line values with symbolic parts, and sequences of two operations (thorough): the dump differs from the original only inside the edited field (prefix and suffix bytes identical; a new field sits at the end of its paragraph on its own lines; a deleted field's lines vanish; a missing final newline is supplied only when something is placed after it), and an independent re-scan and a fresh parse both show the new value under case-insensitive lookup with the original spelling, all else equal.",
+    text="Bounded model checking: for 12 document layouts (comments above fields and inside values, multi-line values, tabs, trailing blanks, 1-2 paragraphs, with/without final newline), every set / add / delete on every paragraph and key (existing, case variant, fresh) with single-line values of up to 2-3 symbolic characters or two-line values with symbolic parts, and sequences of two operations (thorough): the dump differs from the original only inside the edited field (prefix and suffix bytes identical; a new field sits at the end of its paragraph on its own lines; a deleted field's lines vanish; a missing final newline is supplied only when something is placed after it), and an independent re-scan and a fresh parse both show the new value under case-insensitive lookup with the original spelling, all else equal. One layout has comment lines ending in blanks/form feed above the edited field.",
     note="Document layouts are concrete; operation/paragraph/key are symbolic indices and the value text is symbolic. Assumed: new values have no leading/trailing blanks and are non-empty (the interface trims them), contain no line-break characters other than the separating newline; documents contain no error tokens. Whether a deleted field's attached comment lines go with it is not fixed by the statement: both are accepted.",
 )
 
